@@ -1754,8 +1754,9 @@ func (e *CoreExtension) filterKeys(value interface{}, args ...interface{}) (inte
 		return keys, nil
 	}
 
-	// If it's a pointer, dereference it and try again
-	if rv.Kind() == reflect.Ptr && !rv.IsNil() {
+	// If it's a pointer, dereference it and try again (a pointer that leads back to
+	// itself points at no map)
+	if rv.Kind() == reflect.Ptr && !rv.IsNil() && !containsItself(rv, 0, nil) {
 		return e.filterKeys(rv.Elem().Interface(), args...)
 	}
 
@@ -1953,6 +1954,7 @@ func (e *CoreExtension) filterSort(value interface{}, args ...interface{}) (inte
 }
 
 func (e *CoreExtension) filterNumberFormat(value interface{}, args ...interface{}) (interface{}, error) {
+	value = plainNumber(value)
 	num, err := toFloat64(value)
 	if err != nil {
 		return value, nil
@@ -2078,7 +2080,31 @@ func integerDigits(value interface{}) (string, bool) {
 	return "", false
 }
 
+// plainNumber turns a value of a named number type without a String method (type Cents
+// int64) into the plain int64, uint64 or float64 it holds, so that the integer paths of
+// the numeric filters see it; every other value is returned as it is
+func plainNumber(value interface{}) interface{} {
+	switch value.(type) {
+	case nil, int, int64, uint, uint64, float64, string, bool:
+		return value
+	}
+	if _, printsItself := value.(fmt.Stringer); printsItself {
+		return value
+	}
+	switch rv := reflect.ValueOf(value); rv.Kind() {
+	case reflect.Int, reflect.Int8, reflect.Int16, reflect.Int32, reflect.Int64:
+		return rv.Int()
+	case reflect.Uint, reflect.Uint8, reflect.Uint16, reflect.Uint32, reflect.Uint64:
+		return rv.Uint()
+	case reflect.Float32, reflect.Float64:
+		return rv.Float()
+	}
+	return value
+}
+
 func (e *CoreExtension) filterAbs(value interface{}, args ...interface{}) (interface{}, error) {
+	value = plainNumber(value)
+
 	// Integers stay integers: going through float64 loses digits beyond 2^53
 	switch v := value.(type) {
 	case int:
@@ -2108,6 +2134,7 @@ func (e *CoreExtension) filterAbs(value interface{}, args ...interface{}) (inter
 }
 
 func (e *CoreExtension) filterRound(value interface{}, args ...interface{}) (interface{}, error) {
+	value = plainNumber(value)
 	num, err := toFloat64(value)
 	if err != nil {
 		return value, nil
@@ -2134,7 +2161,7 @@ func (e *CoreExtension) filterRound(value interface{}, args ...interface{}) (int
 	// float64 would change integers beyond 2^53
 	if precision >= 0 {
 		switch value.(type) {
-		case int, int64:
+		case int, int64, uint, uint64:
 			return value, nil
 		}
 	}
